@@ -15,6 +15,9 @@ pub mod m12 { average::define_moments!(M12, 12); }
 pub mod m3 { average::define_moments!(M3, 3); }
 pub mod m13 { average::define_moments!(M13, 13); }
 pub mod m16 { average::define_moments!(M16, 16); }
+// (orders above 34 need [f64; 33+] arrays, for which serde has no impls: with the `serde` feature such a type does not compile)
+pub mod m34 { average::define_moments!(M34, 33); }
+pub use m34::M34;
 pub use m13::M13;
 pub use m16::M16;
 pub use m3::M3;
@@ -90,6 +93,8 @@ pub trait Est: Clone + std::fmt::Debug + Default {
     /// the same paths fed by iterators whose size_hint has lower bound 0 (filter, take_while, from_fn)
     fn from_iter_lazy(v: &[f64]) -> Self;
     fn extend_lazy(&mut self, v: &[f64], kind: usize);
+    /// extend from a closure-driven iterator (the closure may panic)
+    fn extend_lazy_from(&mut self, f: &mut dyn FnMut() -> Option<f64>);
     fn headline(&self) -> Option<(String, f64)> { None }
     fn estimate(&self) -> Option<f64> { None }
     /// `from_value(x)` where the type has it (Min, Max)
@@ -112,8 +117,12 @@ macro_rules! ingest_impl {
         fn extend_val(&mut self, v: &[f64]) { self.extend(v.iter().cloned()) }
         fn extend_ref(&mut self, v: &[f64]) { self.extend(v.iter()) }
         fn from_iter_lazy(v: &[f64]) -> Self { v.iter().cloned().filter(|_| true).collect() }
+        fn extend_lazy_from(&mut self, f: &mut dyn FnMut() -> Option<f64>) { self.extend(std::iter::from_fn(|| f())) }
         fn extend_lazy(&mut self, v: &[f64], kind: usize) {
-            match kind % 4 {
+            match kind % 5 {
+                // an iterator whose size_hint claims an exact length that is too small (the hint is advisory)
+                4 => { struct Short<'a>(std::slice::Iter<'a, f64>, usize); impl<'a> Iterator for Short<'a> { type Item = f64; fn next(&mut self) -> Option<f64> { self.0.next().cloned() } fn size_hint(&self) -> (usize, Option<usize>) { (self.1, Some(self.1)) } }
+                       self.extend(Short(v.iter(), v.len() / 2)) }
                 0 => self.extend(v.iter().cloned().filter(|_| true)),
                 1 => self.extend(v.iter().take_while(|_| true)),
                 2 => { let mut i = 0; self.extend(std::iter::from_fn(|| { let r = v.get(i).cloned(); i += 1; r })) }
@@ -200,8 +209,8 @@ impl Est for average::Kurtosis {
     fn estimate(&self) -> Option<f64> { Some(Estimate::estimate(self)) }
 }
 
-pub const CM_STATS: [&str; 17] = ["cm0", "cm1", "cm2", "cm3", "cm4", "cm5", "cm6", "cm7", "cm8", "cm9", "cm10", "cm11", "cm12", "cm13", "cm14", "cm15", "cm16"];
-pub const SM_STATS: [&str; 17] = ["sm0", "sm1", "sm2", "sm3", "sm4", "sm5", "sm6", "sm7", "sm8", "sm9", "sm10", "sm11", "sm12", "sm13", "sm14", "sm15", "sm16"];
+pub const CM_STATS: [&str; 37] = ["cm0", "cm1", "cm2", "cm3", "cm4", "cm5", "cm6", "cm7", "cm8", "cm9", "cm10", "cm11", "cm12", "cm13", "cm14", "cm15", "cm16", "cm17", "cm18", "cm19", "cm20", "cm21", "cm22", "cm23", "cm24", "cm25", "cm26", "cm27", "cm28", "cm29", "cm30", "cm31", "cm32", "cm33", "cm34", "cm35", "cm36"];
+pub const SM_STATS: [&str; 37] = ["sm0", "sm1", "sm2", "sm3", "sm4", "sm5", "sm6", "sm7", "sm8", "sm9", "sm10", "sm11", "sm12", "sm13", "sm14", "sm15", "sm16", "sm17", "sm18", "sm19", "sm20", "sm21", "sm22", "sm23", "sm24", "sm25", "sm26", "sm27", "sm28", "sm29", "sm30", "sm31", "sm32", "sm33", "sm34", "sm35", "sm36"];
 
 macro_rules! moments_impl {
     ($t:ty, $name:expr, $n:expr) => {
@@ -240,6 +249,7 @@ moments_impl!(M12, "M12", 12);
 moments_impl!(M3, "M3", 3);
 moments_impl!(M13, "M13", 13);
 moments_impl!(M16, "M16", 16);
+moments_impl!(M34, "M33", 33);
 // the crate's own instantiation
 impl Est for average::Moments4 {
     const NAME: &'static str = "M4";
@@ -294,6 +304,7 @@ impl Est for average::Max {
     fn extend_ref(&mut self, v: &[f64]) { for x in v { Estimate::add(self, *x) } }
     fn from_iter_lazy(v: &[f64]) -> Self { v.iter().cloned().filter(|_| true).collect() }
     fn extend_lazy(&mut self, v: &[f64], _kind: usize) { for x in v { Estimate::add(self, *x) } }
+    fn extend_lazy_from(&mut self, f: &mut dyn FnMut() -> Option<f64>) { while let Some(x) = f() { Estimate::add(self, x) } }
     fn roundtrip(&self) -> Option<Self> { serde_json::to_string(self).ok().and_then(|js| serde_json::from_str(&js).ok()) }
     fn roundtrip_bin(&self) -> Option<Self> { crate::binfmt::to_bytes(self).ok().and_then(|b| crate::binfmt::from_bytes(&b).ok()) }
     fn from_par(v: &[f64], keep: &[bool]) -> Self { use rayon::prelude::*; v.par_iter().zip(keep.par_iter()).filter(|(_, k)| **k).map(|(x, _)| *x).collect() }
